@@ -1509,11 +1509,23 @@ def _check_bad_rsp(run, world, mod):
         # local assigned in the branches returns what it was assigned)
         from .. import paths as _paths
         try:
+            from ..fold import Folder as _F2
+            _fold2 = _F2(world)
             for p_ in _paths.summaries(vfn[1]):
-                if p_.kind == "return" and isinstance(
-                        p_.expr, ast.Constant) and isinstance(
-                            p_.expr.value, str):
-                    produced.add(p_.expr.value)
+                if p_.kind != "return" or p_.expr is None:
+                    continue
+                e_ = p_.expr
+                if isinstance(e_, (ast.Name, ast.Attribute)):
+                    # a marker kept in a module-level constant
+                    try:
+                        v_ = _fold2.eval(e_, {}, nr.mod)
+                    except Exception:
+                        v_ = None
+                    if isinstance(v_, str):
+                        e_ = ast.Constant(v_)
+                if isinstance(e_, ast.Constant) and isinstance(
+                        e_.value, str):
+                    produced.add(e_.value)
         except _paths.Unsupported as e:
             raise AnalysisError("R-BADRSP: NumericResponse.value is not "
                                 "loop-free: %s" % e)
